@@ -260,7 +260,30 @@ class Ctx:
         self.deadline = None
 
     # -- counters -------------------------------------------------------------
+    def wrapped(self, mode):
+        """context manager: every annotation realised inside is wrapped (schema.realize) and every case
+        reported inside carries {"annot": mode}, so that its replay re-creates the wrappers"""
+        import contextlib
+
+        from . import schema as S
+
+        @contextlib.contextmanager
+        def cm():
+            old, olde = S.DEFAULT_ANNOT, getattr(self, "case_extra", None)
+            S.DEFAULT_ANNOT = mode
+            self.case_extra = {**(olde or {}), "annot": mode} if mode else olde
+            try:
+                yield
+            finally:
+                S.DEFAULT_ANNOT = old
+                self.case_extra = olde
+
+        return cm()
+
     def count(self, case, nontrivial: bool = True, kind: str | None = None):
+        if getattr(self, "case_extra", None) and isinstance(case, dict):
+            case = {**case, **self.case_extra}
+            self.bump(f"wrapper cases:{self.case_extra.get('annot')}")
         self.evaluations += 1
         if nontrivial:
             self.distinct.add(jhash(case))
@@ -290,6 +313,8 @@ class Ctx:
                     return False
             except Exception:
                 pass
+        if getattr(self, "case_extra", None) and isinstance(case, dict):
+            case = {**case, **self.case_extra}
         if len(self.violations) < 25:
             self.violations.append(
                 {"case": case, "observed": observed, "required": required, "what": what}
@@ -299,6 +324,8 @@ class Ctx:
         return True
 
     def disagreement(self, case, model, impl, stream: str):
+        if getattr(self, "case_extra", None) and isinstance(case, dict):
+            case = {**case, **self.case_extra}
         if len(self.disagreements) < 25:
             self.disagreements.append({"case": case, "model": model, "impl": impl, "stream": stream})
         else:
